@@ -159,6 +159,14 @@ static StepResult apply(Live& L, RefState& R, const Ev& e)
         Decl D = R.decl();
         auto got = run_on(*L.p, D, {});
         bool conflict = R.letter_conflict();
+        {
+            // both public entry points refuse alike
+            auto gv = run_on_vector(*L.p, D, {});
+            if (conflict && (gv.ok || gv.why.rfind("parser_error", 0) != 0))
+                got = gv;
+            else if (!conflict && !gv.ok)
+                got = gv;
+        }
         if (!conflict)
             R.parsed = true; // a successful parse: anything the parser may cache about its declarations exists from now on
         if (conflict && (got.ok || got.why.rfind("parser_error", 0) != 0))
@@ -323,7 +331,16 @@ static std::vector<StepResult> probes(const std::vector<Ev>& h, mc::Report* rep)
         Live L;
         RefState R;
         replay(h, L, R);
-        auto got = run_on(*L.p, D, av);
+        for (int entry = 0; entry < 2; entry++)
+        {
+        if (entry == 1)
+        {
+            // every probe also through parse(std::vector<user_input>), on a parser replayed afresh
+            L = Live();
+            R = RefState();
+            replay(h, L, R);
+        }
+        auto got = entry == 0 ? run_on(*L.p, D, av) : run_on_vector(*L.p, D, av);
         if (rep)
             rep->count("executions");
         StepResult s;
@@ -349,7 +366,12 @@ static std::vector<StepResult> probes(const std::vector<Ev>& h, mc::Report* rep)
             }
         }
         if (s.diverged)
+        {
+            if (entry == 1)
+                s.detail += " [through parse(std::vector<user_input>)]";
             out.push_back(s);
+        }
+        }
     }
     return out;
 }
